@@ -122,10 +122,12 @@ PROPS = {
                     "positional order with defaults filled in, every recorded order is complete; no input panics."),
         level_note=("Exhaustive bounded execution, not a proof; StaticsContext reduced to the four fields the code touches. The translator's "
                     "emission order is not covered; surplus positional arguments are silently dropped (excluded from the domain, reported in DESIGN.md). "
-                    "If the two functions or FuncArgDetails can no longer be sliced (data structure changed), the unit falls back to a bounded stand-in "
-                    "on the real CLI (`C18.cli.named_args.sampled`: 154 well-formed + 78 misuse call shapes, free functions and struct constructors)."),
-        technique="exhaustive bounded execution of the sliced real function with type-substituted arguments",
-        scope="named/default argument ordering leaf",
+                    "A bounded black-box obligation on the real CLI (`C18.cli.named_args.sampled`: 154 well-formed call shapes for each of the four callee "
+                    "kinds - free function, struct constructor, method-syntax member function, enum variant constructor - and 78 misuse shapes) runs next to "
+                    "them: it is the only check of the code AROUND the two functions (argument details per callee kind, consumers of the recorded order) and "
+                    "the only one left when the functions can no longer be sliced; never counted as proved."),
+        technique="exhaustive bounded execution of the sliced real function with type-substituted arguments + bounded CLI stand-in for the four callee kinds",
+        scope="named/default argument ordering leaf; callee kinds sampled on the CLI",
         assumptions=[],
     ),
     "C13": dict(
